@@ -55,7 +55,7 @@ def valid_outcomes(expected: list[str], arrivals: list[tuple[str, int]]) -> set[
 
 # ------------------------------------------------------------------------------ the program
 def execute(ex: Execution, expected: list[str], arrivals: list[tuple[str, int]], w: int,
-            valid: set[Any], fail_once: bool = False, wait_after: bool = False) -> tuple[Any, list[Any]]:
+            valid: set[Any], fail_once: bool = False, wait_after: bool = False, fail_first: bool = False) -> tuple[Any, list[Any]]:
     cfg = RunConfig()
     with EngineExec(ex, cfg) as e:
         h = e.h
@@ -98,6 +98,9 @@ def execute(ex: Execution, expected: list[str], arrivals: list[tuple[str, int]],
             ip = next((x for x in ws.in_progress if x.event is ev), None)
             inv.info["buffer_current_at_start"] = ip is None or _ids(ip.shared_state.collected_events) == _ids(ws.collected_events)
             await gate(f"c{label_of.get(id(ev), type(ev).__name__ + str(ev.uid))}")
+            inv.info["retry_number"] = inv.retry.retry_number
+            if fail_first and inv.retry.retry_number == 0:
+                raise RuntimeError("the first attempt of every input fails before it collects; the retry collects")
             r = ctx.collect_events(ev, exp_types)
             if r is not None and wait_after:
                 # the step that holds a full set suspends before it finishes (e.g. asks a human to confirm)
@@ -115,7 +118,7 @@ def execute(ex: Execution, expected: list[str], arrivals: list[tuple[str, int]],
         cls = make_workflow("Collect", [
             make_step("start", [StartEvent], [TYPES[t] for t in acc] + [None], start),
             make_step("coll", [TYPES[t] for t in acc], [StopEvent, None], coll, num_workers=w,
-                      retry_policy=(retry_policy(wait=wait_fixed(0), stop=stop_after_attempt(3)) if fail_once else None))])
+                      retry_policy=(retry_policy(wait=wait_fixed(0), stop=stop_after_attempt(3)) if (fail_once or fail_first) else None))])
         wf = cls(timeout=None, runtime=MonRuntime(BasicRuntime()))
         hd = wf.run(run_id="r1")
         e.consume_stream(hd)
@@ -137,6 +140,16 @@ def execute(ex: Execution, expected: list[str], arrivals: list[tuple[str, int]],
                     v.append(("returned_list_wrong_shape", wit, f"returned types {inv.info['types']}, expected {expected}"))
         if hd.is_done():
             v.append(("run_failed", wit, f"run ended: {hd._result_task}"))
+        if fail_once or fail_first:
+            # a stale-snapshot re-run (and any other re-execution) continues the attempt it belongs to: per input the retry
+            # numbers seen by the step never go backwards
+            per_input: dict[str, list[int]] = {}
+            for inv in h.invocations:
+                if inv.step == "coll" and "retry_number" in inv.info:
+                    per_input.setdefault(label_of.get(id(inv.ev), "?"), []).append(inv.info["retry_number"])
+            for lab, seq in per_input.items():
+                if any(b < a for a, b in zip(seq, seq[1:])):
+                    v.append(("retry_number_goes_backwards_on_rerun", wit, f"input {lab}: retry numbers seen by the collecting step {seq}"))
         seen: Counter = Counter(u for lst in returned for u in lst)
         dup = sorted(u for u, n in seen.items() if n > 1)
         # did an invocation that returned a list start (or was it re-run) from a buffer that was already out of date?
@@ -206,6 +219,11 @@ def programs(tier: str) -> list[Program]:
                               (lambda ex, expected=expected, arrivals=arrivals, w=w, valid=valid_outcomes(expected, arrivals):
                                execute(ex, expected, arrivals, w, valid, wait_after=True)),
                               max_dev=(3 if q else 5)))
+    for w in (2, 3):
+        expected, arrivals = ["A", "B"], [("A", 1), ("B", 1), ("A", 2), ("B", 2)]
+        ps.append(Program(f"collect_fail_first(AB;w={w})", {"expected": expected, "arrivals": arrivals, "w": w, "fail_first": True},
+                          (lambda ex, expected=expected, arrivals=arrivals, w=w, valid=valid_outcomes(expected, arrivals):
+                           execute(ex, expected, arrivals, w, valid, fail_first=True)), max_dev=(4 if q else 6)))
     for w in (1, 2):
         expected, arrivals = ["A", "B"], [("A", 1), ("B", 1), ("A", 2), ("B", 2)]
         ps.append(Program(f"collect_fail_once(AB;w={w})", {"expected": expected, "arrivals": arrivals, "w": w, "fail_once": True},
@@ -217,7 +235,7 @@ def programs(tier: str) -> list[Program]:
 RULE = ("expected lists [A,B], [A,A,B], [A,B,C], [A,A] x arrival multisets with surplus events, value-equal events and two "
         "rounds x collector "
         "num_workers 1..3(4) x every order in which the collecting invocations complete (+ a collector that fails once and is "
-        "retried, + a collector that suspends in wait_for_event while it holds a full set); the multiset of returned "
+        "retried, + one whose every first attempt fails before it collects, so that retries meet stale snapshots, + a collector that suspends in wait_for_event while it holds a full set); the multiset of returned "
         "lists must equal the list-buffer reference on some serial order of the same arrivals, no event may be in "
         "two lists; num_workers=1 runs bind the reference to the implementation; non-trivial = at least one "
         "schedule deviation")
